@@ -191,6 +191,13 @@ fn cert_items(ctx: &Ctx) -> Vec<CertItem> {
             for k in [56403u32, 56402, 55844, 30000, 10000, 9999, 5000, 2000, 1001, 1000, 999, 501, 300, 260, 251, 250, 249, 101] {
                 items.push(CertItem { k, t: 2, build: Build::New, seed: rng.next_u64() });
             }
+            // every block size of Table 2 (a change confined to a few K' is otherwise a lottery)
+            for (i, &kp) in kps.iter().enumerate() {
+                let _ = i;
+                for build in [Build::Planned, Build::UnplannedSparse] {
+                    items.push(CertItem { k: kp, t: 1, build, seed: rng.next_u64() });
+                }
+            }
             for _ in 0..12 {
                 let k = 1 + rng.below(20000) as u32;
                 items.push(CertItem { k, t: 1 + rng.below(4) as usize, build: if rng.below(2) == 0 { Build::UnplannedSparse } else { Build::Planned }, seed: rng.next_u64() });
@@ -277,7 +284,7 @@ fn signature(_c: &Case, msg: &str) -> String {
 }
 
 pub fn run(ctx: &Ctx, rep: &mut Report) {
-    rep.rule = "direct: generated (K from {1..30} U {K', K'-1, K'+1 : K' <= 300 (quick) / 1500 (thorough)}, T in 1..=80/128, data class, construction in {new, with_encoding_plan, unplanned dense/sparse, plan generated on dense/sparse}); reference intermediate symbols by plain GF(256) Gaussian elimination of the RFC constraint matrix; source packets, intermediate symbols and repair payloads for ESIs {K..K+20, 16 drawn from near/uniform/far classes, 2^24-2, 2^24-1} compared byte for byte. certificate: crate intermediate symbols for K up to 56403 checked against all L reference constraint rows, repair payloads recomputed with the reference Tuple/Enc. tables: SHA-256 pins, Deg on all 2^20 inputs, Rand on 2e5 inputs. Non-trivial = repair symbol with tuple degree d >= 2 on a block with padding (K < K'); distinct by (K, T, ESI).".into();
+    rep.rule = "direct: generated (K from {1..30} U {K', K'-1, K'+1 : K' <= 300 (quick) / 1500 (thorough)}, T in 1..=80/128, data class, construction in {new, with_encoding_plan, unplanned dense/sparse, plan generated on dense/sparse}); reference intermediate symbols by plain GF(256) Gaussian elimination of the RFC constraint matrix; source packets, intermediate symbols and repair payloads for ESIs {K..K+20, 16 drawn from near/uniform/far classes, 2^24-2, 2^24-1} compared byte for byte. certificate: crate intermediate symbols for every one of the 477 block sizes of Table 2 (both tiers) and further K up to 56403 checked against all L reference constraint rows, repair payloads recomputed with the reference Tuple/Enc. tables: SHA-256 pins, Deg on all 2^20 inputs, Rand on 2e5 inputs. Non-trivial = repair symbol with tuple degree d >= 2 on a block with padding (K < K'); distinct by (K, T, ESI).".into();
     rep.assumptions.push("V0..V3 and Table 2 are trusted as of the pinned commit (digests in golden/tables.json); no second source exists offline".into());
     rep.assumptions.push("beyond K' = 1500 invertibility of A is not re-proved by a reference solve; a C that satisfies all L relations is the RFC's C provided A is invertible (shown by the solver succeeding and by C06 for all 477 K')".into());
     rep.absorb("tables", table_check());
